@@ -10,7 +10,10 @@ mod case {
     include!(concat!(env!("OUT_DIR"), "/case.rs"));
 }
 
+mod ast;
 mod c16;
+mod dump;
+mod front;
 
 pub fn guarded<F: FnOnce() -> Value>(f: F) -> Value {
     match catch_unwind(AssertUnwindSafe(f)) {
@@ -32,6 +35,8 @@ fn dispatch(v: &Value) -> Value {
     let cmd = v["cmd"].as_str().unwrap_or("");
     match cmd {
         "rename_direct" | "rename_e2e" | "serde_case" | "unicode" => c16::handle(cmd, v),
+        "parse" => front::handle(cmd, v),
+        "ast" | "ast_type" => ast::handle(cmd, v),
         _ => json!({ "bad": format!("unknown cmd {cmd}") }),
     }
 }
